@@ -9,6 +9,7 @@ import Driver.FmtDrv
 import Driver.ValDrv
 import Driver.SelDrv
 import Driver.TmoDrv
+import Driver.XmlDrv
 open Cgreen.Drv
 
 /-- Read all of stdin as lines. -/
@@ -41,6 +42,9 @@ def main (args : List String) : IO UInt32 := do
     for b in blocks lines do
       for l in Cgreen.Drv.VC.runLines (stp.toNat?.getD 100) b do out.putStrLn l
       out.putStrLn "---"
+    return 0
+  | ["xml"] =>
+    for l in lines do out.putStrLn (Cgreen.Drv.XM.evalLine l)
     return 0
   | ["timeout"] =>
     for l in lines do out.putStrLn (Cgreen.Drv.TM.evalLine l)
